@@ -390,6 +390,10 @@ func (p *program) parseArgs(args []string) error {
 		return err
 	}
 
+	if p.exitCode < 0 || p.exitCode > 255 {
+		// The status is truncated to 8 bits by the OS: 256 would turn into "no issues found".
+		return fmt.Errorf("-exitCode: %d is out of the 0..255 range", p.exitCode)
+	}
 	if p.concurrency < 1 {
 		// 0 would block forever on the first checker, a negative value can't size the semaphore.
 		return fmt.Errorf("-concurrency: %d is not a positive number", p.concurrency)
